@@ -155,8 +155,9 @@ func c09Check(c C09Case, cx *h.Ctx) *h.Failure {
 	if gotI != geom.Intersects(B, A) {
 		return h.Failf("intersects/asymmetric", "Intersects(A,B)=%v but Intersects(B,A)=%v%s", gotI, !gotI, desc())
 	}
-	d, ok := geom.Distance(A, B)
-	d2, ok2 := geom.Distance(B, A)
+	var d, d2 float64
+	var ok, ok2 bool
+	h.Lib("Distance", func() { d, ok = geom.Distance(A, B); d2, ok2 = geom.Distance(B, A) })
 	if ok != ok2 || (ok && math.Abs(d-d2) > tau) {
 		return h.Failf("distance/asymmetric", "Distance(A,B)=%v,%v but Distance(B,A)=%v,%v%s", d, ok, d2, ok2, desc())
 	}
